@@ -15,7 +15,8 @@ EXPLANATION = (
     "reader table entries, every package `deserialize` method and the constructors of registered classes. Decides: (R1) no `while` "
     "in D; every loop whose trip count derives from stream data is capped by an isinstance(int) test plus an upper-bound raise, or "
     "is consumption-bounded (every iteration decodes at least one value, and decoding raises at end of stream); recursion passes "
-    "through deserialize_value only; (R2) no stream-derived integer reaches an allocation sink ([x]*n, bytes(n), bytearray(n), "
+    "through deserialize_value only; no function of D repositions a stream (seek / truncate / peek), so consumption-bounded means "
+    "bounded by the input size; (R2) no stream-derived integer reaches an allocation sink ([x]*n, bytes(n), bytearray(n), "
     "list(range(n)), str*n) - a positive control keeps the rule alive; (R3) dynamic instantiation is only registry[type_id]() / "
     "deserialize_types[type_id](...) after membership tests, no eval/exec/pickle/__import__, attribute names written by setattr "
     "come from the class's own _fields; (R4) every primitive reader unpacks exactly calcsize bytes (short input raises); the 2-byte "
@@ -168,6 +169,21 @@ def r1(ctx):
             ctx.check(ok, "C14.R1", fi, "loop over range(%s) (stream-derived)" % var,
                       "iteration is bounded by a checked cap or by stream consumption", witness={"capped": capped, "int_checked": tychk, "consumption_bounded": cons}, line=node.lineno)
     ctx.expect("C14.R1", "loops in the decoder graph", n_loops, 5)
+    # the decoder only moves forward: "bounded by consumption" (loops and recursion alike) counts bytes that are consumed once.
+    # A decoder that repositions its stream can decode the same bytes again - per nesting level that is 2^depth work for 2 bytes
+    # per level.  (tell() reads the position and is harmless; a new BytesIO over a decoded *value* re-reads bytes that the outer
+    # stream has consumed for good, a constant factor.)
+    back = []
+    for fi in D:
+        for c in walk_own(fi.node):
+            if isinstance(c, ast.Call) and isinstance(c.func, ast.Attribute) and c.func.attr in ("seek", "truncate", "peek", "seekable", "readinto") \
+                    and not (c.func.attr == "seek" and fi.name in ("loadz",)):
+                back.append((fi, c))
+    for fi, c in back:
+        ctx.violated("C14.R1", fi, c, "the decoder repositions its stream", "bytes that were decoded once can be decoded again: decoding work is no longer bounded by the input size", line=c.lineno)
+    if not back:
+        ctx.holds("C14.R1", ctx.fn("%s:deserialize_value" % M), "no function of the decoder graph repositions a stream (seek / truncate / peek)",
+                  "every byte is consumed at most once per stream")
     # recursion only through deserialize_value
     dq = {f.qual for f in D}
     hub = "%s:deserialize_value" % M
